@@ -52,11 +52,14 @@ where
 				let mut local = Local::default();
 				loop {
 					let lo = next.fetch_add(chunk, Ordering::Relaxed);
-					if lo >= n {
+					if lo >= n || rep.fail_fast() {
 						break;
 					}
 					let hi = (lo + chunk).min(n);
 					for i in lo..hi {
+						if rep.fail_fast() {
+							break;
+						}
 						if numbered {
 							crate::report::set_case(leg, i);
 						}
